@@ -2,8 +2,11 @@
 # run every claimed check on the clean tree (rewrites evidence/), print one line each
 cd /verif
 git -C /repo diff --quiet || { echo "/repo dirty"; exit 9; }
+overall=0
 for p in $(python3 -c "import json;print(' '.join(c['property_id'] for c in json.load(open('MANIFEST.json'))['checks']))"); do
   out=$(./check $p --tier ${TIER:-quick} 2>&1); rc=$?
   echo "$p rc=$rc $(echo "$out" | grep '^\[' | cut -c1-150)"
+  [ $rc -ne 0 ] && overall=1
   [ $rc -ne 0 ] && echo "$out" | tail -5
 done
+exit $overall
